@@ -1698,7 +1698,8 @@ def analyse_positive(ctx, want_props):
                 # it only fails because a declaration it refers to was quarantined: that one carries the verdict
                 continue
             regime = [x for x in mine if regime_error(x)]
-            p = {"C18"} if (mine and len(regime) == len(mine)) else {"C09" if d["kind"] == "struct" else "C10"}
+            is_regime = mine and (d.get("std_ok") is True or len(regime) == len(mine))
+            p = {"C18"} if is_regime else {"C09" if d["kind"] == "struct" else "C10"}
             allp = {"C09" if d["kind"] == "struct" else "C10", "C18"}
             ctx.note_shape(allp, d["path"], ("accept", d["kind"], d["path"]))
             if not mine:
